@@ -5665,6 +5665,10 @@ class CodegenCtx:
                 char_type = self._get_string_char_type()
                 if action.into_storage.holds_a(OutputStorageType.RAW):
                     char_type = "uint8_t"
+                if isinstance(action, AppendCharTo):
+                    # the value may itself read the counter (x += [x.len]); evaluate it before the counter is bumped
+                    body.add(f"{char_type} nmfu_appended = ({char_type})({target_expression});")
+                    target_expression = "nmfu_appended"
                 body.add(f"{self._generate_buflike_index_expr(action.into_storage, f'state->{action.into_storage.name}_counter++')} = ({char_type})({target_expression});")
                 if action.into_storage.holds_a(OutputStorageType.STR) and action.into_storage.str_null:
                     body.add(f"{self._generate_buflike_index_expr(action.into_storage, f'state->{action.into_storage.name}_counter')} = 0;")
